@@ -217,6 +217,15 @@ class Ctx:
             # the watchdog recorded a case that did not return; the partial file is judged
             self.note("driver %s: %s" % (suite, p.stdout.strip().splitlines()[-1]))
             return p.stdout
+        if p.returncode == 2 and "fatal error:" in p.stdout and "VERIF_SERIAL" not in e:
+            # the Go runtime killed the driver (a fault or a detected concurrent map access: unrelated cases run on parallel
+            # workers, and a tree under check that shares mutable state between calls can corrupt memory that way).  One
+            # retry with the cases in sequence: what it observes is judged as usual; if it dies again there is no verdict.
+            self.note("driver %s was killed by the Go runtime (%s); retrying with the cases in sequence" % (
+                suite, next((l for l in p.stdout.splitlines() if l.startswith("fatal error:")), "fatal error")))
+            env2 = dict(env or {})
+            env2["VERIF_SERIAL"] = "1"
+            return self.drive(suite, infile, outfile, args=args, timeout=max(timeout or 0, 3000), exe=exe, env=env2)
         if p.returncode != 0:
             raise Broken("driver %s failed rc=%d:\n%s" % (suite, p.returncode, p.stdout if len(p.stdout) <= 4000 else p.stdout[:1500] + "\n[...]\n" + p.stdout[-2500:]))
         return p.stdout
